@@ -200,6 +200,13 @@ func genFilter(t *rapid.T, evs []*mocrelay.Event) simrt.FilterSpec {
 			}
 			f.Tags[tg[0]] = append(f.Tags[tg[0]], tg[1])
 		}
+		if rapid.IntRange(0, 7).Draw(t, "emptytag") == 0 {
+			// a tag condition with an empty value list is a condition nothing satisfies
+			name := rapid.SampledFrom([]string{"e", "t", "z"}).Draw(t, "emptytagname")
+			if _, has := f.Tags[name]; !has {
+				f.Tags[name] = []string{}
+			}
+		}
 		if len(f.Tags) == 0 {
 			f.Tags = nil
 		}
